@@ -26,6 +26,24 @@ CLAIMS = {
                   "(a sequential contract cannot express a process dying mid-copy), 'the message names the file'."),
 }
 
+CLAIMS["C14"] = dict(
+    text="Proof that the engine honours the life-cycle for every file, stated over ghost call traces: FileSourceProvider holds exactly the "
+         "lines readlines() returned (newline stripped, empty last line iff the text ends with a newline); __scan_file calls starting_new_file, "
+         "then [compile_pragmas], then next_token once per token of the parser's stream for that file in order (pragma token removed first), "
+         "then next_line(k+1, line k, is_last) for every line in order, then completed_file(n+1), then report; each PluginManager dispatcher "
+         "delivers its event to every rule of the corresponding dispatch list exactly once, in list order, with the same context/token/line "
+         "(scan mode; loop invariants, no bound).",
+    note=TB + "Fix mode (context_map given): only exception wrapping and frames are proved, not the per-rule event sequence. Construction of "
+              "the dispatch lists (apply_configuration) is not under contract at this commit. The per-rule projection of the two trace levels "
+              "is composed on paper (DESIGN.md 5/C14).")
+CLAIMS["C07"] = dict(
+    text="Proof of the engine half: whatever a rule callback raises, only BadPluginError leaves the four dispatchers (all loop positions); "
+         "PluginScanFailure.__lt__ is the lexicographic (line, column, rule id) order; report_on_triggered_rules hands every collected failure "
+         "to the manager exactly once (bijection witnessed by a ghost index list), in that order, and empties the list; __scan_file reports "
+         "exactly once on every exit; log_scan_failure prints and counts a failure iff no pragma covers it.",
+    note=TB + "NOT covered: the rules' own state machines (an IndexError inside a rule surfaces as BadPluginError, it is not excluded), "
+              "range of token-driven positions (C05), uniqueness of what a single rule reports.")
+
 NA = {
     "C01": "totality of the ~60 kLoC parser is a postcondition of TokenizedMarkdown.transform; no contract chain within reach without a Python deductive verifier (DESIGN.md 7)",
     "C02": "round-trip of parser + 5 kLoC regenerator needs the token stream specified as an encoding of the document (C03+C04+C05 in full) first (DESIGN.md 7)",
